@@ -454,7 +454,8 @@ body is empty or holds `{% fill "name" %}` tags with content of the fragment), `
   being rendered) and **is** the render, in a context without slot references,
   - of its own default content `body` when `cc.fills` has no fill under the slot's name — and then every name a template
     can use except `component_vars` resolves exactly as at the slot tag;
-  - of the nodes of `f`, the fill `cc.fills` holds under that name, otherwise. -/
+  - of the nodes of `f`, the fill `cc.fills` holds under that name, otherwise — and then the alias the fill asked for
+    (`data="d"`) resolves to exactly the keyword arguments of this slot tag, evaluated at the tag. -/
 theorem slot_renders_its_fill_else_its_default_in_trees (env : Env) (fuel : Nat) (nameE : Expr) (isRequired : Bool)
     (data : List (Str × Expr)) (body : List Node) (ctx : Ctx) (w : World)
     (hc : Djc.Proofs.Plain.ctxFree ctx = true) (hw : Djc.Proofs.Tree.WInv w) :
@@ -466,6 +467,7 @@ theorem slot_renders_its_fill_else_its_default_in_trees (env : Env) (fuel : Nat)
           (∀ k, Djc.Proofs.Calm.internal k = false → k ≠ compVarsKey → ctxGet c3 k = ctxGet ctx k) ∧
           (renderSlot env (fuel + 1) nameE false isRequired data body ctx).run.run w = (renderNodes env fuel body c3).run.run w) ∨
        (∃ f, sGet (slotNameOf (evalExpr ctx nameE)) cc.fills = some f ∧
+          (∀ d, f.dataVar = some d → ctxGet c3 d = some (.dict (evalKwargs ctx data))) ∧
           (renderSlot env (fuel + 1) nameE false isRequired data body ctx).run.run w = (renderNodes env fuel f.nodes c3).run.run w))) :=
   Djc.Proofs.Tree.slot_unfolds env fuel nameE isRequired data body ctx w hc hw
 
@@ -483,7 +485,7 @@ theorem unfilled_slot_renders_its_default_content_in_trees (env : Env) (fuel : N
   rcases Djc.Proofs.Tree.slot_unfolds env fuel nameE isRequired data body ctx w hc hw with h | h | ⟨cid, cc, c3, h1, h2, _, hcase⟩
   · exact Or.inl h
   · exact Or.inr (Or.inl h)
-  · rcases hcase with ⟨_, hs, hr⟩ | ⟨f, hf, _⟩
+  · rcases hcase with ⟨_, hs, hr⟩ | ⟨f, hf, _, _⟩
     · exact Or.inr (Or.inr ⟨c3, hs, hr⟩)
     · rw [hnf cid cc h1 h2] at hf; cases hf
 
